@@ -93,6 +93,17 @@ def namesOk (b : AssetBinary) : Bool := (allNames b).all nameOk
 
 def lossy (b : AssetBinary) : Bool := (allNames b).any lossyName
 
+/-- Code points outside the sub-codec that real Shift-JIS may encode (U+4E0A, U+300A, U+FF0A,
+U+4E5C, U+4E00, U+4E6E — low byte like '\n', '\\', NUL, 'n'), in UTF-8.  The model cannot encode
+them: correspondence skip; the oracle demands refusal or an exact round trip. -/
+def foreignName (n : Option Bytes) : Bool :=
+  match n with
+  | none => false
+  | some s => [[0xE4, 0xB8, 0x8A], [0xE3, 0x80, 0x8A], [0xEF, 0xBC, 0x8A], [0xE4, 0xB9, 0x9C],
+      [0xE4, 0xB8, 0x80], [0xE4, 0xB9, 0xAE]].any (fun (pat : Bytes) => hasInfix pat s)
+
+def foreign (b : AssetBinary) : Bool := (allNames b).any foreignName
+
 /-- Check the flag bytes of record `k` of the real image against the specification. -/
 def recordCheck (k : Nat) (s : AssetSpec) (flags : List Nat) : Option String :=
   let ext := Spec.Asset.extended s.strs s.vals
@@ -155,7 +166,7 @@ def family : Family where
     match binaryOf c with
     | some (e, b) =>
       -- lossily encodable code points: the sub-codec cannot predict the bytes — correspondence skip
-      let m := if lossy b then " ".intercalate (i.drop 1) else modelOut e b
+      let m := if lossy b || foreign b then " ".intercalate (i.drop 1) else modelOut e b
       ((), m, oracle e b i)
     | none => ((), "bad-case", "FAIL bad-case")
 
